@@ -272,6 +272,9 @@ func vacuityCheck(vcs []vcAndKey, timeout int) []string {
 	for _, v := range vcs {
 		seen := map[string]bool{}
 		for _, o := range v.vc.Obls {
+			if o.Kind == "nopanic" {
+				continue // safety obligations inside branches that the assumed library contracts make dead are harmless
+			}
 			id := fmt.Sprintf("%s|%d", o.Guard, o.NAssumes)
 			if seen[id] {
 				continue
